@@ -135,6 +135,7 @@ class GenMonitor:
 
 
 class LogReturns(Harness):
+    cvc5_recheck = True      # thorough tier: obligations re-discharged with cvc5
     name = "LogReturns"
     title = "real Fundamentals._generate_log_return: drift + Cholesky(vol x corr x vol) . N(0,I) draws"
     what_symbolic = "volatilities (>0), drifts, pairwise correlations in (-1,1), the normal draws, the Cholesky factor's entries"
@@ -182,6 +183,7 @@ class LogReturns(Harness):
 
 
 class Paths(Harness):
+    cvc5_recheck = True      # thorough tier: obligations re-discharged with cvc5
     name = "Paths"
     title = "real Fundamentals price paths across generation chunks, parameter changes and shocks"
     what_symbolic = ("initial values (>0), drifts, volatilities, correlation, draws, exp values (contract stub); the "
